@@ -17,7 +17,7 @@ def run(tier, argv):
         docs, cases, nd, nc = semcommon.generate(work, rep, mod, mod + ".cfg", lvl, label)
         files.append(cases)
     # the type-graph families of C09 (optional recursion through one, two and three types, arrays, or-alternatives): Example of every accepted graph
-    for gl, consts in ((("g1", {"NTypes": "2", "Level": "1"}),) if quick else (("g1", {"NTypes": "3", "Level": "1"}), ("g2", {"NTypes": "2", "Level": "2"}))):
+    for gl, consts in ((("g1", {"NTypes": "2", "Level": "1"}), ("go", {"NTypes": "2", "Level": "1", "KeysOptDefault": "TRUE"})) if quick else (("g1", {"NTypes": "3", "Level": "1"}), ("g2", {"NTypes": "2", "Level": "2"}), ("go", {"NTypes": "2", "Level": "2", "KeysOptDefault": "TRUE"}))):
         raw = work.path("gen-%s.txt" % gl)
         r = vlib.tlc(work, "GenGraph", "GenGraph.cfg", consts=consts, to_file=raw, timeout=6000, heap="16g")
         rep.add_tlc(r, "GenGraph %s" % consts)
